@@ -346,6 +346,63 @@ def run_reject(task):
     return viol, (kind, stage, p.dropped(to))
 
 
+def run_split(task):
+    """an honest unit (prologue, handshake frame, KCM, record) arrives in two TCP segments cut at offset i"""
+    victim, stage, i = task
+    p = Pair(upto="raw")
+    order = [("prologue", 0), ("prologue", 1), ("handshake", 1), ("handshake+kcm", 0), ("kcm", 1), ("record", 0), ("record", 1)]
+    done = False
+    for (st, to) in order:
+        if st == "record":
+            src = 1 - to
+            if p.proto[src]._manager is None or p.dropped(src):
+                continue
+            p.proto[src].send_record(Data(9, 9, b"payload-after-selection"))
+        if p.dropped(to) or not p.link.pending(p.pside[to]):
+            continue
+        if (st, to) == (stage, victim):
+            n = p.link.pending(p.pside[to])
+            if i >= n:
+                return [], (stage, "n/a")
+            p.feed(to, i)
+            p.turns()
+            if not p.dropped(to):
+                p.feed(to)
+            p.turns()
+            done = True
+            continue
+        p.feed(to)
+        p.turns()
+    viol = []
+    case = dict(kind="split", victim=victim, stage=stage, offset=i, bit=0)
+    ok = p.proto[0]._manager is not None and p.proto[1]._manager is not None and not p.dropped(0) and not p.dropped(1)
+    got_ok = [r for r in p.got[0] + p.got[1] if isinstance(r, Data)]
+    if not ok or len(got_ok) != 2 or p.w.errors:
+        viol.append(dict(oracle="l2-fragmentation", sig="split:%s" % stage,
+                         msg="%s for manager %d delivered in two segments cut at byte %d: selected=%s dropped=%s/%s records=%d errors=%r" % (
+                             stage, victim, i, [p.proto[k]._manager is not None for k in (0, 1)], p.dropped(0), p.dropped(1), len(got_ok), p.w.errors),
+                         case=case))
+    return viol, (stage, ok)
+
+
+def part_split(chk):
+    sizes = {("prologue", 0): 47, ("prologue", 1): 45, ("handshake", 1): 52, ("handshake+kcm", 0): 73, ("kcm", 1): 21,
+             ("record", 0): 52, ("record", 1): 52}
+    tasks = [(victim, stage, i) for (stage, victim), n in sizes.items() for i in range(1, n)]
+    ctx = mp.get_context("fork")
+    viol = []
+    keys = set()
+    n = 0
+    with ctx.Pool(NPROC) as pool:
+        for v, k in pool.imap_unordered(run_split, tasks, chunksize=16):
+            n += 1
+            keys.add(k)
+            viol.extend(v)
+    chk.add_enum("l2-handshake-fragmentation", n, keys, "every two-segment fragmentation (cut at every byte offset) of every unit of an honest L2 set-up: both "
+                 "prologues, both Noise handshake frames, both KCMs and a Data record in each direction; the connection must get selected on both sides, "
+                 "stay up, and deliver the records", [list(t) for t in tasks[::max(1, len(tasks) // 4)]][:4], viol)
+
+
 def part_reject(chk):
     tasks = []
     sizes = {("prologue", 0): 47, ("prologue", 1): 45, ("handshake", 1): 52, ("handshake+kcm", 0): 73, ("kcm", 1): 21,
@@ -427,11 +484,17 @@ def run(chk):
     for sc in chunk_scenarios(chk.tier):
         res = explore(sc, log=chk.log if os.environ.get("VERIF_VERBOSE") else None)
         chk.add_result(res)
+    part_split(chk)
     part_reject(chk)
 
 
 def replay(body):
     c = body.get("case")
+    if isinstance(c, dict) and c.get("kind") == "split":
+        v, k = run_split((c["victim"], c["stage"], c["offset"]))
+        for x in v:
+            print("VIOLATION-REPLAYED", x["oracle"], x["sig"], x["msg"])
+        return 1 if v else 0
     if isinstance(c, dict) and "stage" in c:
         v, k = run_reject((c["kind"], c["victim"], c["stage"], c["offset"], c["bit"]))
         print("class:", k)
